@@ -689,6 +689,8 @@ class Interp:
                             return bound
                     elif kind == "value":
                         return self.eval(item, self.module_scope(mod_))
+            if "__plain_list__" in v.fields and attr not in ("append", "extend", "insert", "remove", "pop", "clear", "index", "count", "sort", "reverse", "copy"):
+                raise _Raise(f"AttributeError: 'list' object has no attribute '{attr}'", ["AttributeError", "Exception", "BaseException", "object"])
             if v.cls == "Group" and attr in ("groups", "variables"):
                 data = v.fields.get("data")
                 if isinstance(data, DictS):
@@ -757,6 +759,13 @@ class Interp:
             return self.call(self.getattr(v, "__getitem__"), [k], {}, node)
         if isinstance(v, Choice):
             return Choice([self.getitem(a, k, node) for a in v.alts])
+        if isinstance(v, DictS) and isinstance(k, Leaf) and v.items and not v.optional and not self.strict:
+            # table[<field value>]: one alternative per entry (a key outside the table raises KeyError and yields nothing)
+            t = getattr(v, "table", None)
+            if t is not None:
+                t["probed"] = True
+                t["hits"].update(v.items)
+            return Choice(list(v.items.values()), [f"key=={kk!r}" for kk in v.items])
         if isinstance(v, DictS) and isinstance(k, Const):
             t = getattr(v, "table", None)
             if t is not None:
@@ -823,6 +832,8 @@ class Interp:
         results = []
         homogeneous = [None]
 
+        maybe = set()
+
         def rec(i, scope):
             if i == len(e.generators):
                 if kind == "dict":
@@ -852,16 +863,21 @@ class Interp:
                 inner = scope.child()
                 self.bind(g.target, item, inner)
                 keep = True
+                unsure = False
                 for c in g.ifs:
                     t = self.truth(self.eval(c, inner))
                     if t is None:
                         if self.strict:
                             raise ShapeError(f"comprehension filter `{short(c, 50)}` is undecidable on the model value")
                         self.note("filter-unknown", short(e, 60), "comprehension filter undecidable; element kept as optional")
+                        unsure = True
                     elif t is False:
                         keep = False
                 if keep:
+                    before = len(results)
                     rec(i + 1, inner)
+                    if unsure:
+                        maybe.update(range(before, len(results)))
 
         rec(0, sc)
         if homogeneous[0] is not None:
@@ -870,12 +886,16 @@ class Interp:
             return ListOf(homogeneous[0][1], homogeneous[0][2])
         if kind == "dict":
             d = DictS()
-            for k, v in results:
+            for idx, (k, v) in enumerate(results):
                 if isinstance(k, TupS) and all(isinstance(x, Const) for x in k.elts):
                     k = Const(tuple(x.v for x in k.elts))
                 if not isinstance(k, Const):
                     return Top("dict comprehension with non-constant key")
                 d.items[k.v] = v
+                if idx in maybe:
+                    d.optional.add(k.v)  # kept or dropped by a filter that depends on the (unknown) value: an optional entry
+                else:
+                    d.optional.discard(k.v)
             return d
         return ListLit(results)
 
